@@ -710,15 +710,49 @@ class Blob(object):
     length   -- SInt (engine's integer mode) or Python int
     decoded  -- for ('utf8', s) blobs the string they decode to, etc.
     """
-    __slots__ = ('key', 'length', 'decoded')
+    __slots__ = ('key', 'length', 'decoded', 'base')
 
-    def __init__(self, key, length, decoded=None):
+    def __init__(self, key, length, decoded=None, base=None):
         self.key = key
         self.length = length
         self.decoded = decoded
+        self.base = base          # for ('slice', basekey, lo, hi) blobs: the blob they are a piece of
 
     def __repr__(self):
         return 'Blob(%s, len=%s)' % (self.key, self.length)
+
+
+def _same_term(a, b):
+    if isinstance(a, z3.ExprRef) and isinstance(b, z3.ExprRef):
+        return a.eq(b) or z3.simplify(a).eq(z3.simplify(b))
+    return type(a) is type(b) and a == b
+
+
+def _merge_slices(x, y):
+    """slice(b, lo, mid) || slice(b, mid, hi) = slice(b, lo, hi) when the two mids are the same term."""
+    kx, ky = x.key, y.key
+    if kx[0] == 'slice' and ky[0] == 'slice' and x.base is not None and x.base is y.base:
+        if _same_term(kx[3], ky[2]):
+            return Blob(('slice', kx[1], kx[2], ky[3]), x.length + y.length, base=x.base)
+    return None
+
+
+def _whole_slice(sl, other):
+    """Formula under which the slice blob `sl` denotes all of blob `other`, or None."""
+    if sl.key[0] == 'slice' and sl.base is other:
+        lo, hi = sl.key[2], sl.key[3]
+        n = other.length
+        nt = n.t if isinstance(n, SInt) else n
+        def eqz(a, b):
+            if isinstance(a, z3.ExprRef) or isinstance(b, z3.ExprRef):
+                if isinstance(a, int):
+                    a = z3.BitVecVal(a, b.size()) if z3.is_bv(b) else z3.IntVal(a)
+                if isinstance(b, int):
+                    b = z3.BitVecVal(b, a.size()) if z3.is_bv(a) else z3.IntVal(b)
+                return a == b
+            return z3.BoolVal(a == b)
+        return z3.And(eqz(lo, 0), eqz(hi, nt))
+    return None
 
 
 def _key_eq(a, b):
@@ -757,6 +791,11 @@ class SBytes(object):
                     continue
                 if out and isinstance(out[-1], bytes):
                     out[-1] = out[-1] + a
+                    continue
+            elif isinstance(a, Blob) and out and isinstance(out[-1], Blob):
+                m = _merge_slices(out[-1], a)
+                if m is not None:
+                    out[-1] = m
                     continue
             out.append(a)
         self.atoms = out
@@ -890,6 +929,10 @@ def _align(xs, ys, depth):
     xb, yb = isinstance(x, Blob), isinstance(y, Blob)
     if xb and yb:
         f = _key_eq(x.key, y.key)
+        if f is None:
+            f = _whole_slice(x, y)
+            if f is None:
+                f = _whole_slice(y, x)
         if f is not None:
             rest = _align(xs[1:], ys[1:], depth)
             return None if rest is None else z3.And(f, rest)
